@@ -112,8 +112,9 @@ Section LoopsKeep.
   Lemma alt_loop_keeps own : forall bs st f t, keeps st (fst (alt_loop rec own st f t bs)).
   Proof.
     induction bs as [|b r IH]; intros st f t; cbn [alt_loop]; [apply keeps_refl|].
-    pose proof (Hrec st f t b) as H. destruct (rec st f t b) as [st1 [v|e]]; cbn in H; [exact H|].
-    eapply keeps_trans; [exact H|apply IH].
+    pose proof (Hrec st f t b) as H. destruct (rec st f t b) as [st1 [v|e]]; cbn in H.
+    - destruct (Nat.eqb v 0); [eapply keeps_trans; [exact H|apply IH]|exact H].
+    - eapply keeps_trans; [exact H|apply IH].
   Qed.
 
   Lemma or_loop_keeps : forall bs st f t, keeps st (fst (or_loop rec st f t bs)).
@@ -164,8 +165,9 @@ Proof.
                                let st5 := if f_nopy (get st4 p) then nopy_walk (List.length st4) st4 p e else st4 in
                                (st5, Exc e) end))).
   { intros st2 r Hk. eapply keeps_trans; [exact H1|]. eapply keeps_trans; [exact Hk|]. apply except_keeps. }
-  destruct s as [n ok|n kids|n steps|n bs|n bs|n cs].
+  destruct s as [n ok|n|n kids|n steps|n bs|n bs|n cs].
   - destruct ok; [apply (Hbody st1 (Ret (2000 + n)) (keeps_refl st1)) | apply (Hbody st1 (Exc n) (keeps_refl st1))].
+  - apply (Hbody st1 (Ret 0) (keeps_refl st1)).
   - pose proof (nest_loop_keeps (glom_ fuel) IH n kids st1 (List.length st) t) as H.
     destruct (nest_loop (glom_ fuel) n st1 (List.length st) t kids) as [st2 r]. apply Hbody. exact H.
   - pose proof (chain_loop_keeps (glom_ fuel) IH steps st1 (List.length st) t) as H.
@@ -203,8 +205,9 @@ Proof.
                                  let st5 := if f_nopy (get st4 p) then nopy_walk (List.length st4) st4 p e else st4 in
                                  (st5, Exc e) end))).
     { intros st2 r Hk2. eapply keeps_trans; [exact Hk2|]. apply except_keeps. }
-    destruct s as [n ok|n kids|n steps|n bs|n bs|n cs].
+    destruct s as [n ok|n|n kids|n steps|n bs|n bs|n cs].
     - destruct ok; [apply (Hbody st1 (Ret (2000 + n)) (keeps_refl st1)) | apply (Hbody st1 (Exc n) (keeps_refl st1))].
+    - apply (Hbody st1 (Ret 0) (keeps_refl st1)).
     - pose proof (nest_loop_keeps (glom_ fuel) (glom_keeps fuel) n kids st1 (List.length st) t) as H.
       destruct (nest_loop (glom_ fuel) n st1 (List.length st) t kids) as [st2 r]. apply Hbody. exact H.
     - pose proof (chain_loop_keeps (glom_ fuel) (glom_keeps fuel) steps st1 (List.length st) t) as H.
